@@ -10,6 +10,7 @@
 #include <stddef.h>
 
 void alloc_track(int on);		/* start/stop recording (and failing) */
+void alloc_misalign(int on);		/* tracked malloc/calloc results are 8 mod 16 while on (freed correctly later) */
 void alloc_suspend(int delta);		/* +1 / -1 around engine-internal allocations */
 void alloc_reset(void);			/* forget everything, counters to zero */
 size_t alloc_calls(void);		/* malloc/calloc/realloc calls seen while tracking */
